@@ -410,7 +410,15 @@ func (r *Retrieve[K, E]) execKeys(ctx context.Context, tx Tx) ([]K, error) {
 			return nil, err
 		}
 		if reader.keyCodec.matchPrefix(r.prefix, e.GorpKey()) {
-			match, mErr := r.match(gorpCtx, &e, nil, b)
+			// The raw stage is not part of match: run it here too, as the scan path
+			// does, so a raw predicate composed with a key set is not dropped.
+			match, mErr := true, error(nil)
+			if r.filter.raw != nil {
+				match, mErr = r.filter.raw(reader.keyCodec.encode(k), b)
+			}
+			if mErr == nil && match {
+				match, mErr = r.match(gorpCtx, &e, nil, b)
+			}
 			if mErr != nil {
 				return nil, errors.Combine(mErr, closer.Close())
 			}
@@ -524,7 +532,13 @@ func (r *Retrieve[K, E]) execOrdered(ctx context.Context, tx Tx) error {
 			}
 			return err
 		}
-		match, mErr := r.match(gorpCtx, &e, nil, b)
+		match, mErr := true, error(nil)
+		if r.filter.raw != nil {
+			match, mErr = r.filter.raw(reader.keyCodec.encode(k), b)
+		}
+		if mErr == nil && match {
+			match, mErr = r.match(gorpCtx, &e, nil, b)
+		}
 		if mErr != nil {
 			return errors.Combine(mErr, closer.Close())
 		}
